@@ -174,7 +174,7 @@ func nontrivial(s string) bool {
 func TestPropEnumerate(t *testing.T) {
 	registerAll()
 	ev.KeepFirst("strings")
-	maxLen := ev.N(4, 5)
+	maxLen := ev.N(4, 6)
 	var n, nt, bad int64
 	gen.Shortlex(alphabet, maxLen, ev.Mine, func(b []byte, _ []int) {
 		s := string(b)
